@@ -144,28 +144,50 @@ def run(rep):
     sem.registry_walk_spec(rep, 'R04.4', ul, '_lookup', '_adapters', 'fwd', True,
                            ['name', '0', 'len(required)'], None)
 
-    # ---- R04.5 None -> Interface ------------------------------------------
+    # ---- R04.5 None -> Interface (over path summaries) -------------------------------
+    import re as _re
+    from .mutators import norm_required
+    from ..sympath import summaries as _S, normal as _N
+    RAW = _re.compile(r'(?<![A-Za-z0-9_.])required(?![A-Za-z0-9_])')
     for fn in ('register', '_find_leaf', 'unregister', 'subscribe',
                'unsubscribe'):
         f = find_def(mod, 'BaseAdapterRegistry.' + fn)
-        ok, detail = shared.required_normalised(f)
-        rep.check('R04.5', 'BaseAdapterRegistry.' + fn, ok, detail, node=f)
+        probs = []
+        used = 0
+        for ps in _N(_S(f)):
+            texts = [(repr(e), e) for e in ps.events] + [(c, None) for c, t, p in ps.order]
+            if ps.ret is not None:
+                texts.append((sem.nt(ps.ret), None))
+            for txt, e in texts:
+                if e is not None and e.kind == 'call' and \
+                        sem.nt(e.r.func) == 'self.unregister':
+                    continue      # register(..., None) delegates with the raw arguments
+                t = txt
+                if e is not None:
+                    parts = [sem.nt(e.r)] + ([sem.nt(e.val)] if e.val is not None else [])
+                    t = ' = '.join(norm_required(x) for x in parts)
+                else:
+                    t = norm_required(t)
+                if _re.search(r'(?<![A-Za-z0-9_.])R(?![A-Za-z0-9_])', t):
+                    used += 1
+                if RAW.search(t) and not t.startswith(
+                        ('_convert_None_to_Interface(', 'map(_convert_None_to_Interface, ')):
+                    probs.append('`required` is used without the None -> Interface '
+                                 'conversion in `%s`' % t[:70])
+        if not used:
+            probs.append('the normalised required is never used')
+        rep.check('R04.5', 'BaseAdapterRegistry.' + fn, not probs,
+                  'every use of `required` goes through tuple(_convert_None_to_Interface'
+                  '(r) for r in required) (%d uses)' % used if not probs else
+                  {'problems': sorted(set(probs))[:3]}, node=f)
     cn = find_def(mod, '_convert_None_to_Interface')
     p = params(cn)[0]
-    paths = cfg_of(cn).paths()
-    okc = True
-    seen = []
-    for path in paths:
-        conds = [(norm_src(n.ast), lab) for n, lab in path if n.kind == 'test']
-        ret = [n.ast for n, lab in path if isinstance(n.ast, ast.Return)]
-        seen.append((conds, norm_src(ret[0].value) if ret else None))
-    want = {((('%s is None' % p, 'T'),), 'Interface'),
-            ((('%s is None' % p, 'F'),), p)}
-    got = {(tuple(c), r) for c, r in seen}
-    alt = {((('%s is not None' % p, 'F'),), 'Interface'),
-           ((('%s is not None' % p, 'T'),), p)}
-    rep.check('R04.5', '_convert_None_to_Interface', got == want or got == alt,
-              'decision table %s' % sorted(map(str, got)), node=cn)
+    tab = set()
+    for ps in _N(_S(cn)):
+        tab.add((ps.facts.get('%s is None' % p), sem.nt(ps.ret)))
+    rep.check('R04.5', '_convert_None_to_Interface',
+              tab == {(True, 'Interface'), (False, p)},
+              'decision table %s' % sorted(map(str, tab)), node=cn)
 
     # ---- R04.6 default handling and cache fill (PY) ----------------------
     lk = find_def(mod, 'LookupBase.lookup')
